@@ -63,13 +63,18 @@ FirAdd(map, e) ==
     IF \E i \in 1..Len(map) : map[i][1] = e[1]
     THEN [i \in 1..Len(map) |-> IF map[i][1] = e[1] THEN << e[1], e[2] >> ELSE map[i]]
     ELSE Append(map, << e[1], e[2] >>)
+\* the fold is quadratic; without a repeated SSRC (checked in O(n log n)) the map is the add-list itself
+FirMap(adds) ==
+    IF Cardinality({ adds[i][1] : i \in 1..Len(adds) }) = Len(adds)
+    THEN [i \in 1..Len(adds) |-> << adds[i][1], adds[i][2] >>]
+    ELSE FoldLeft(FirAdd, <<>>, adds)
 ApplyRpsi(r, c) ==
     CASE c.c = "pt"   -> [r EXCEPT !.pt = c.v]
       [] c.c = "data" -> [r EXCEPT !.data = c.v, !.bits = c.bits]
       [] c.c = "probe" -> r
 FciCfg(v) ==
     CASE v.f = "nack" -> [f |-> "nack", set |-> ToSet(v.adds)]
-      [] v.f = "fir"  -> [f |-> "fir", map |-> FoldLeft(FirAdd, <<>>, v.adds)]
+      [] v.f = "fir"  -> [f |-> "fir", map |-> FirMap(v.adds)]
       [] v.f = "sli"  -> [f |-> "sli", list |-> v.adds]
       [] v.f = "rpsi" -> FoldLeft(ApplyRpsi, [f |-> "rpsi", pt |-> 0, data |-> <<>>, bits |-> 0], v.calls)
       [] v.f = "pli"  -> [f |-> "pli"]
